@@ -1,8 +1,8 @@
 """C11 — the object tree and child order of the QML document are preserved."""
 import json
 
-from .. import common, doccheck, uiparse
-from ..gen_doc import DocGen
+from .. import regen, common, doccheck, uiparse
+from ..gen_doc import DocGen, Obj
 
 
 def make_docs(rng, n):
@@ -22,8 +22,67 @@ def make_docs(rng, n):
                                        '@A {}\n@B {}\n', '/** doc */\n'))
                 d.decorated = d.decorated or o.prefix.startswith("@")
             d.print(None)
+        d.stray = None
+        if i % 8 == 3:
+            # an object declared inside an object that cannot hold children (an action, a separator, a spacer): rejected with a
+            # diagnostic, or present in the form -- never dropped
+            hosts = [o for o in d.objects() if o.kind in ("action", "separator", "spacer") and not o.children]
+            if hosts:
+                h = rng.choice(hosts)
+                c = Obj(*rng.choice((("QAction", "action"), ("QLabel", "widget"), ("QMenu", "menu"))))
+                c.id = "stray%d" % i
+                c.parent = h
+                h.children.append(c)
+                d.stray = (c.id, h.kind)
+                d.print(None)
         docs.append(d)
     return docs
+
+
+def same_name_same_kind(v, rng):
+    """The element kind of an object follows from its class.  A type name provided both by the document's directory and by an imported
+    directory (components of different families: widget / menu / action) may denote either of them, but two files of one directory
+    with the same import list must agree: an instance of X in Main.qml and an instance of P (P.qml: `X {}`) are then objects of the
+    same family and must appear as the same kind of element (relational; no precedence between the directories is assumed)."""
+    import os
+    import subprocess
+    wd = common.workdir("c11kind")
+    n = 0
+    fams = [("QWidget", "QMenu"), ("QMenu", "QWidget"), ("QLabel", "QAction"), ("QAction", "QPushButton"), ("QMenu", "QAction")]
+    for k, (own, imported) in enumerate(fams):
+        imp = rng.choice(('"themed"', '"./themed"', '"themed/"'))
+        pd = os.path.join(wd, "p%d" % k)
+        os.makedirs(os.path.join(pd, "themed"))
+        head = "import qmluic.QtWidgets\n"
+        files = {"Entry.qml": head + "%s {}\n" % own, "themed/Entry.qml": head + "%s {}\n" % imported,
+                 "Panel.qml": head + "import %s\nEntry {}\n" % imp,
+                 "Main.qml": head + "import %s\nQMainWindow {\n    QMenuBar {\n        QMenu {\n            id: fileMenu\n            QAction { id: first }\n"
+                             "            Entry { id: direct }\n            Panel { id: viaPanel }\n            QAction { id: last }\n        }\n    }\n}\n" % imp}
+        for rel, text in files.items():
+            open(os.path.join(pd, rel), "w").write(text)
+        p = subprocess.run([common.CLI, "generate-ui", "--foreign-types", common.METATYPES, "Main.qml"], cwd=pd, capture_output=True,
+                           env=dict(os.environ, NO_COLOR="1"), timeout=120)
+        if p.returncode != 0:
+            continue        # refusing the document is no violation of this property
+        ui = open(os.path.join(pd, "main.ui"), "rb").read().decode("utf-8", "replace")
+        try:
+            root = uiparse.parse(ui)
+        except uiparse.UiSyntaxError as e:
+            v.inconc("ill-formed .ui (C09's business): %s" % e)
+            continue
+        n += 1
+        seen = {}
+        for e in root.walk():
+            if e.attrs.get("name") in ("direct", "viaPanel") and e.tag in ("widget", "action", "layout", "spacer"):
+                seen[e.attrs["name"]] = e.tag
+        menu = next((e for e in root.walk() if e.tag == "widget" and e.attrs.get("name") == "fileMenu"), None)
+        added = [c.attrs.get("name") for c in (menu.children if menu is not None else []) if c.tag == "addaction"]
+        kind = {x: (seen.get(x), x in added) for x in ("direct", "viaPanel")}
+        if kind["direct"] != kind["viaPanel"] or None in seen.values() or len(seen) != 2:
+            v.violation("same-type-different-kind", "Entry (own directory: %s, %s: %s) instantiated directly is %r, through Panel.qml (`Entry {}`, "
+                        "same directory, same imports) it is %r (element, listed in the menu's addaction)" % (own, imp, imported, kind["direct"], kind["viaPanel"]),
+                        {"files": files, "ui": ui})
+    return n
 
 
 def run(tier, seed, replay=None):
@@ -38,7 +97,7 @@ def run(tier, seed, replay=None):
             raise common.HarnessError("replay case not regenerated (different seed/tier?)")
     res, out = doccheck.translate_docs(docs, modes=("generate",), want=("ui",), tag="c11")
     shapes = set()
-    n_acc = n_rej = n_obj = n_addaction = n_rej_decorated = n_acc_decorated = 0
+    n_acc = n_rej = n_obj = n_addaction = n_rej_decorated = n_acc_decorated = n_stray_rejected = n_stray_present = 0
     kinds = {}
     samples = []
     rejected_msgs = {}
@@ -52,6 +111,21 @@ def run(tier, seed, replay=None):
             continue
         if not doccheck.accepted(g) and d.decorated:
             n_rej_decorated += 1
+            continue
+        if d.stray:
+            if not doccheck.accepted(g):
+                n_stray_rejected += 1
+                continue
+            try:
+                names = {e.attrs.get("name") for e in uiparse.parse(g["ui"]).walk()}
+            except uiparse.UiSyntaxError as e:
+                v.inconc("ill-formed .ui (C09's business): %s" % e)
+                continue
+            if d.stray[0] not in names:
+                v.violation("child-dropped:in-" + d.stray[1], "object %s declared inside a %s is accepted without a diagnostic but appears "
+                            "nowhere in the form" % d.stray, {"qml": d.source, "ui": g["ui"]})
+            else:
+                n_stray_present += 1
             continue
         if d.decorated:
             n_acc_decorated += 1
@@ -103,7 +177,7 @@ def run(tier, seed, replay=None):
     import os
     import subprocess
     wd = common.workdir("c11cli")
-    okdocs = [d for d, r in zip(docs, res) if r and doccheck.accepted(r["generate"][0]) and not d.decorated]
+    okdocs = [d for d, r in zip(docs, res) if r and doccheck.accepted(r["generate"][0]) and not d.decorated and not d.stray]
     n_multi = 0
     for k in range(4 if tier == "quick" else 40):
         if len(okdocs) < 4:
@@ -133,17 +207,25 @@ def run(tier, seed, replay=None):
             if alarms:
                 v.violation("tree-multi-source", "%s written by a %d-source invocation: %s" % (n.lower() + ".ui", len(names), alarms[0][1]), rp)
                 break
+    n_kind = 0 if replay else same_name_same_kind(v, rng)
     for i in out.cpu_violations:
         v.inconc("cpu budget (C07's business) %s" % i)
     total = n_acc + n_rej
     if total and n_rej > 0.25 * total:
         v.inconc("generator produced %d rejected documents of %d: %r" % (n_rej, total, rejected_msgs))
     v.assumptions = ["generator's own tree is the reference; documents rejected by qmluic are not judged here (C05/C04)"]
+    # the tree on disk is the tree of the CURRENT source (objects reordered / renamed without changing the length of the form)
+    _w = regen.HEAD + "QWidget {\n    QVBoxLayout {\n%s    }\n}\n"
+    n_hist = 0 if replay else regen.regenerated_equals_fresh(v, "c11hist", [
+        (_w % "        QLabel { id: aa }\n        QLabel { id: bb }\n", _w % "        QLabel { id: bb }\n        QLabel { id: aa }\n"),
+        (_w % "        QLabel { id: aa }\n        QFrame { id: bb }\n", _w % "        QFrame { id: aa }\n        QLabel { id: bb }\n"),
+        (_w % "        QLabel { id: aa; QLabel { id: cc } }\n        QLabel { id: bb }\n", _w % "        QLabel { id: aa }\n        QLabel { id: bb; QLabel { id: cc } }\n"),
+    ], "stale-tree-after-edit", "objects reordered")
     return v.finish(
-        evaluations=total, distinct_nontrivial=len(shapes),
+        histories_on_disk=n_hist, evaluations=total, distinct_nontrivial=len(shapes),
         rule="random object trees (depth<=7, fan-out<=8+) over widgets, 4 layout classes, spacers, actions, separators, menus, "
              "tab widgets, main windows; tree isomorphism + addaction sequence; distinct = distinct (class, has-id, children) "
              "tree shape with >= 4 objects",
         samples=samples, accepted=n_acc, rejected=n_rej, rejected_reasons=rejected_msgs, objects_matched=n_obj,
-        objects_by_kind=kinds, forms_of_multi_source_invocations_matched=n_multi, annotated_documents_rejected=n_rej_decorated, annotated_documents_accepted=n_acc_decorated, addaction_entries_checked=n_addaction, floor=50 if tier == "quick" else 500,
+        objects_by_kind=kinds, forms_of_multi_source_invocations_matched=n_multi, same_name_projects_compared=n_kind, annotated_documents_rejected=n_rej_decorated, misplaced_children_rejected=n_stray_rejected, misplaced_children_present=n_stray_present, annotated_documents_accepted=n_acc_decorated, addaction_entries_checked=n_addaction, floor=50 if tier == "quick" else 500,
     )
